@@ -69,21 +69,35 @@ def textx_isinstance(obj: Any, obj_cls: type[Any], _visited: Any = None) -> bool
     return False
 
 
+def _matched_nodes(node):
+    """
+    The children of a parse tree node without a separator that was given
+    back: a repetition with a separator that matched one more separator, but
+    no element after it, returns the separator to the input while its node
+    stays in the tree (as the last child, or followed by a node that starts
+    where the separator started). It is not a part of the match.
+    """
+    nodes = list(node)
+    return [
+        n
+        for i, n in enumerate(nodes)
+        if not (
+            getattr(n.rule, "_tx_separator", False)
+            and i > 0
+            and (i + 1 == len(nodes) or nodes[i + 1].position <= n.position)
+        )
+    ]
+
+
 def _match_end(node):
     """
-    The offset right after the last character the node's rule matched. A
-    repetition with a separator that matched one more separator, but no
-    element after it, gives the separator back to the input while its node
-    stays the last child of the repetition: it is not a part of the match.
+    The offset right after the last character the node's rule matched.
     """
     while isinstance(node, NonTerminal) and len(node) > 0:
-        last = node[-1]
-        separator = getattr(node.rule, "sep", None)
-        if separator is not None and last.rule is separator:
-            if len(node) < 2:
-                break
-            last = node[-2]
-        node = last
+        nodes = _matched_nodes(node)
+        if not nodes:
+            break
+        node = nodes[-1]
     return node.position_end
 
 
@@ -672,10 +686,12 @@ def parse_tree_to_objgraph(
         else:
             # If RHS of assignment is NonTerminal it is a product of
             # complex match rule. Convert nodes to text and do the join.
-            if len(nt) > 1:
-                result = "".join([str(process_match(n)) for n in nt])
+            # (without a separator a repetition gave back)
+            nodes = _matched_nodes(nt)
+            if len(nodes) > 1:
+                result = "".join([str(process_match(n)) for n in nodes])
             else:
-                result = process_match(nt[0])
+                result = process_match(nodes[0])
             return metamodel.process(
                 result, nt.rule_name, filename=parser.file_name, line=line, col=col
             )
